@@ -28,6 +28,9 @@ ASSUMPTIONS = [
 ]
 BUDGET = {'quick': 30, 'thorough': 1500}
 WALL = {'quick': 900, 'thorough': 3 * 3600}
+# a pair of runs needs seconds (the tool is given 6 s per transcript); rare inputs keep the
+# process busy for many minutes: abandoned (inconclusive) after this much CPU time
+CASE_LIMIT = {'quick': 120, 'thorough': 600}
 KINDS = ['misc', 'minlen', 'minmw', 'maxlen', 'sect', 'w2f', 'novel', 'add_record', 'add_record',
     'add_file', 'noncanonical', 'backsplicing']
 
